@@ -71,7 +71,10 @@ type Case struct {
 	// of the three calls has to return.
 	Redo string `json:"redo,omitempty"`
 	// Engine: "" = engine over the case's files; "nofs" = vuego.New() (no filesystem at all);
-	// "nilfs" = vuego.NewFS(nil) / NewVue(nil). Calls in an unusual order (Render without Load,
+	// "nilfs" = vuego.NewFS(nil) / NewVue(nil); "less" = files + the LESS processor; "less-first" =
+	// New(WithLessProcessor(), WithFS(..)) (processor set up before the file system is known);
+	// "less-bare" = a NewLessProcessor() without file system registered by hand; "less-nofs" =
+	// New(WithLessProcessor()) without any file system. Calls in an unusual order (Render without Load,
 	// Load of a missing file, ...) are entries of their own: see misuseEntries.
 	Engine string `json:"engine,omitempty"`
 	// WantErr: the file set contains an include cycle that the page reaches unconditionally:
@@ -387,7 +390,16 @@ func checkNow(c Case) (err error) {
 	switch c.Entry {
 	case "vue", "frag":
 		vue = vuego.NewVue(fsys).Funcs(cat.Funcs())
-		if c.Engine != "" {
+		switch c.Engine {
+		case "":
+		case "less":
+			vue.RegisterNodeProcessor(vuego.NewLessProcessor(fsys))
+		case "less-first", "less-bare":
+			// the processor created without a file system of its own
+			vue.RegisterNodeProcessor(vuego.NewLessProcessor())
+		case "less-nofs":
+			vue = vuego.NewVue(nil).Funcs(cat.Funcs()).RegisterNodeProcessor(vuego.NewLessProcessor())
+		default:
 			vue = vuego.NewVue(nil).Funcs(cat.Funcs())
 		}
 	default:
@@ -406,6 +418,15 @@ func checkNow(c Case) (err error) {
 			root = vuego.New(vuego.WithFuncs(cat.Funcs()))
 		case "nilfs":
 			root = vuego.NewFS(nil, vuego.WithFuncs(cat.Funcs()), vuego.WithLessProcessor())
+		case "less":
+			root = vuego.NewFS(fsys, append(opts, vuego.WithLessProcessor())...)
+		case "less-first":
+			// options in the other order: the processor is set up before the file system is known
+			root = vuego.New(vuego.WithLessProcessor(), vuego.WithFS(fsys), vuego.WithFuncs(cat.Funcs()))
+		case "less-bare":
+			root = vuego.NewFS(fsys, vuego.WithFuncs(cat.Funcs()), vuego.WithProcessor(vuego.NewLessProcessor()))
+		case "less-nofs":
+			root = vuego.New(vuego.WithFuncs(cat.Funcs()), vuego.WithLessProcessor())
 		default:
 			root = vuego.NewFS(fsys, opts...)
 		}
@@ -966,6 +987,40 @@ func TestProp(t *testing.T) {
 				each("misuse", c, "family=api-misuse", "engine="+map[string]string{"": "files", "nofs": "none", "nilfs": "nil"}[eng])
 				c.Data = nil
 				each("misuse", c, "family=api-misuse", "no-data")
+			}
+		}
+	}
+
+	// family 5b: style blocks for the LESS processor - imports of files that exist, are missing,
+	// import themselves or each other, malformed blocks - on engines whose processor was given
+	// the file system, was set up before it, or never got one
+	lessBlocks := []string{
+		"\n.a {\n  color: red;\n}\n",
+		"\n@import \"theme.less\";\n.a {\n  color: @c;\n}\n",
+		"\n@import \"missing.less\";\n.a {\n  color: red;\n}\n",
+		"\n@import \"self.less\";\n.a {\n  color: red;\n}\n",
+		"\n@import \"one.less\";\n.a {\n  color: red;\n}\n",
+		"\n@import \"../outside.less\";\n@import \"/abs.less\";\n.a {\n  color: red;\n}\n",
+		"\n.a {\n  color: @undefined;\n  .nomixin();\n}\n",
+		"\n.a {\n  color: red;\n",
+		"\n.loop(@n) when (@n > 0) {\n  .w-@{n} {\n    width: @n;\n  }\n  .loop(@n - 1);\n}\n.loop(3);\n",
+		"",
+	}
+	for bi, block := range lessBlocks {
+		files := map[string]string{
+			"page.vuego": "<div>\n<style type=\"text/css+less\">" + block + "</style>\n<p>{{ who }}</p>\n</div>",
+			"theme.less": "@c: #336699;\n",
+			"self.less":  "@import \"self.less\";\n@s: 1px;\n",
+			"one.less":   "@import \"two.less\";\n@one: 1px;\n",
+			"two.less":   "@import \"one.less\";\n@two: 2px;\n",
+		}
+		for _, eng := range []string{"less", "less-first", "less-bare", "less-nofs"} {
+			for _, e := range entries {
+				if eng == "less-nofs" && e != "string" {
+					continue
+				}
+				c := Case{Files: files, Entry: e, Engine: eng, Data: map[string]vals.V{"who": vals.Str("w")}}
+				each("less", c, "family=less-processor", "engine="+eng, fmt.Sprintf("block=%d", bi))
 			}
 		}
 	}
